@@ -326,6 +326,10 @@ func (g *sgen) opAssign() string {
 		}
 	default:
 		r = g.rhs(2)
+		if isLitText(r) {
+			// constants only come from the branch above, which knows the known findings
+			r = "x1"
+		}
 		if (op == "/" || op == "%") && g.isInt() {
 			r = "(" + r + " | 1)"
 			if isLitText(strings.TrimPrefix(r, "(")) {
